@@ -90,7 +90,7 @@ def to_tlc_events(trace_path, out_path):
                 lexicals_of(st["rows"], lex)
                 lexicals_of(ps["q"], lex)
                 lex.discard("")
-                kind, num, rank, canon = G.tables(lex)
+                kind, num, rank, canon = G.tables(lex, G.resource_terms(prev["quads"]))
                 unscalable = [x for x in lex if G.kind_of(x) == "num" and x not in num]
                 if sorted(map(tuple, prev["quads"])) != sorted(map(tuple, ps["intended"])):
                     load_mismatch += 1
